@@ -32,6 +32,10 @@ def compare(ctx, rule, inst, code: Val, spec: Val, fi, key, strict_idiom=True):
     ce, se = expand_linspace(code), expand_linspace(spec)
     if same(ce, se) or (isinstance(ce, Num) and isinstance(se, Num) and ce.struct_eq(se)):
         return ctx.ok(rule, inst, 'equal element by element with linspace(s, e, k)[i] = s + i*(e - s)/(k - 1)', fi.loc(), fi.qualname, key)
+    from .common import resolve_layout
+    cl, sl = resolve_layout(code), resolve_layout(spec)
+    if (cl is not code or sl is not spec) and (same(cl, sl) or (isinstance(cl, Num) and isinstance(sl, Num) and cl.struct_eq(sl))):
+        return ctx.ok(rule, inst, 'equal element by element (two-dimensional layout resolved: flat[i] = M[i // columns, i % columns])', fi.loc(), fi.qualname, key)
     hc, hs = heads(code), heads(spec)
     from .common import tolerance_heads
     tol = [h for h in tolerance_heads(code) if 'lib:' + h not in hs]
